@@ -12,11 +12,13 @@ def replay : Backend (Nat × Nat) where
 def parseStmt (s : String) : Option (Stmt (Nat × Nat)) :=
   match s.splitOn ":" with
   | ["l", n] => some (.label n)
+  | ["f", n] => some (.func n)
   | ["e", a, b] => some (.emit (a.toNat?.getD 0, b.toNat?.getD 0))
   | ["o", a] => some (.org (a.toNat?.getD 0))
   | _ => none
 
-/-- `twopass <start address> <stmt>…` -> `ok name=p1/p2 …` -/
+/-- `twopass <start address> <stmt>…` -> `ok name=p1/p2 …` | `moved` | `err`;
+    stmt = `l:name` (`name:`) | `f:name` (`.func name`) | `e:size1:size2` | `o:address` -/
 def handle (args : List String) : String :=
   match args with
   | start :: rest =>
